@@ -16,6 +16,21 @@ CHECKS = {
  "C15": ("E-ENUM", "model_checking", "bounded-exhaustive enumeration of failing (path, document) pairs against the reference model's candidate set",
          "For every failing pair of the C01 product the reported error (type and full text: step as written, expected kind, found Go type) must be one of the failures the model records at the deepest failing position, a missing member or failed function outranking a type mismatch; for single-valued paths that set is a singleton, so the comparison is exact.",
          "Trusted: the reference model's failure bookkeeping and the renderer's per-step text.", "DESIGN.md §4 C15"),
+ "C11": ("E-ENUM", "model_checking", "complete enumeration of the small slice/index space plus integer-boundary cross product against a big-integer Python-slice model (itself recomputed by python3)",
+         "All start/end/step in {omitted} U [-7..7] on lengths 0..6 and every combination of integer-boundary magnitudes are evaluated, alone, inside a union and after recursive descent; the selected elements must equal Python's slice semantics, no index may fall outside the array, and integers outside the int range must be rejected by Parse with ErrorInvalidArgument. The small space is covered completely, not sampled.",
+         "Trusted: spec.PySlice (cross-checked against the real python3 over the whole table on every run), arrays holding their own indices.", "DESIGN.md §4 C11"),
+ "C12": ("E-ENUM", "exploration", "bounded-exhaustive enumeration with a relational oracle between two runs of the implementation (plain vs accessor mode)",
+         "Every path of the ladders (functions after every step kind and inside filter operands) is parsed twice, with and without accessor mode, with identical recording function sets, and evaluated on every document of the bound; result count, Get() values, error type/text and the recorded function arguments must coincide.",
+         "Trusted: the recording wrappers; no reference model is involved.", "DESIGN.md §4 C12"),
+ "C13": ("E-ENUM", "model_checking", "bounded-exhaustive enumeration of paths x documents x result index; location oracle from the reference model, structural diff after every Set",
+         "For every accessor of every result: Get() equals the selected value; Set(sentinel) makes exactly the model's (container,key|index) hold the sentinel and leaves the rest of the document equal to an untouched copy; Get() then returns it; an in-place update of the location is seen by Get(); Set is nil exactly for the root and function outputs.",
+         "Trusted: the reference model's locations (h/spec), the unique sentinel, the structural equality used for the diff.", "DESIGN.md §4 C13"),
+ "C14": ("E-ENUM", "model_checking", "bounded-exhaustive enumeration of function sequences after every step-kind prefix and inside filter operands; recorded call logs compared per occurrence with the reference model",
+         "Every navigation prefix of the bound is followed by every sequence of 1..3 functions out of {f, id, e, g, cnt, eg}, each occurrence under its own alias; values, errors (deepest failing step, ErrorFunctionFailed naming a failed function) and the per-occurrence call log (argument, order, count) must equal the model's.",
+         "Trusted: the reference model's function protocol (Appendix A.2), the recording wrappers. Relative order of calls of different occurrences is not compared.", "DESIGN.md §4 C14"),
+ "C20": ("E-ENUM", "model_checking", "bounded-exhaustive enumeration of documents with one or two leaves replaced by each of 24 non-JSON Go values x all short paths, against the reference model",
+         "Every short path (all comparison atoms, functions) is evaluated on every small document in which one leaf (or the root, or two leaves) is replaced by a non-JSON value; the model treats such a value as an opaque scalar, so values, failure and the ErrorTypeUnmatched text naming the Go type must agree, and nothing may panic.",
+         "Trusted: the reference model (no special case for non-JSON values), identity comparison for reference kinds.", "DESIGN.md §4 C20"),
 }
 
 def main():
